@@ -25,7 +25,7 @@ def one(i):
     shared = len([t for s in sc['sensors'] for t in s['stamps']]) > \
         len({t for s in sc['sensors'] for t in s['stamps']})
     return dict(i=i, regime=sc['regime'], wa=bool(kn['with_altitude']), ts=kn['time_step'],
-                shared=shared, mask=any(isinstance(kn[w]['bias_sd'], list)
+                shared=shared, asyn=bool(sc.get('asynchronous')), mask=any(isinstance(kn[w]['bias_sd'], list)
                                         for w in ('gyro_model', 'accel_model')),
                 met=[[m['D'], m['Dg'], m['Da'], m['Dsd']] for m in met])
 
@@ -40,8 +40,9 @@ if __name__ == '__main__':
     ok = [r for r in res if 'err' not in r]
     print(len(ok), 'worlds;', len(res) - len(ok), 'errors')
     for reg in ('weak', 'strong'):
+      for asyn in (False, True):
         for wa in (True, False):
-            rr = [r for r in ok if r['regime'] == reg and r['wa'] == wa]
+            rr = [r for r in ok if r['regime'] == reg and r['wa'] == wa and r['asyn'] == asyn]
             if not rr:
                 continue
             m = np.array([r['met'] for r in rr])        # world, scale, metric
@@ -49,6 +50,6 @@ if __name__ == '__main__':
             e2 = (m[:, 2, :3] - 0.2 * m[:, 1, :3]).max()
             s1 = (m[:, 1, 3] - 0.5 * m[:, 0, 3]).max()
             s2 = (m[:, 2, 3] - 0.2 * m[:, 1, 3]).max()
-            print(f"{reg:6s} {'3d' if wa else '2d'} n={len(rr):5d}  estimates: excess1(0.5) "
+            print(f"{reg:6s} {'async' if asyn else 'sync '} {'3d' if wa else '2d'} n={len(rr):5d}  estimates: excess1(0.5) "
                   f"{e1:.4f} excess2(0.2) {e2:.4f} | sigma: excess1(0.5) {s1:.2e} "
                   f"excess2(0.2) {s2:.2e}  D1max {m[:, 0, :3].max():.2f}")
